@@ -277,7 +277,7 @@ def _chain_after(root, node):
 
 
 def rules(ctx):
-    return [r15_1, r15_2, r15_3, r15_6, r15_4, r15_5]
+    return [__import__('vjsx.rules.c10', fromlist=['x']).field_ratchet('the factory must not depend on state other than the module-wide pragma'), r15_1, r15_2, r15_3, r15_6, r15_4, r15_5]
 
 
 EXPLANATION = (
